@@ -293,6 +293,7 @@ def run(repo='/repo', tier='quick'):
     res.floor('C17.c', 'tables with adds', len([k for k in adds if k[0] != 'local']), 4)
     res.assumptions.append('equality with an abstract sequence / multimap model on values is not decided; byte-string scan loops are covered by the guarded-read rules of C01')
     c17d(db, res)
+    c17e(db, res)
     return res
 
 
@@ -332,3 +333,43 @@ def c17d(db, res):
     ok = bool(own) and bool(finals) and all(any(h in dom[fb] for h in own) for fb in finals)
     res.check(ok, 'C17.d', 'cmp_nocasenorzero:trailing-nul-skipped', 'a loop that only advances %s over NUL bytes dominates the final length comparison' % c1,
               'after the scan nothing skips the NUL bytes that are left of the first operand before %s is compared with its length: a key or value with trailing NUL bytes no longer compares equal (htp_table_get_c misses the first match; "gzip\\0" is not recognised)' % c1, f.loc)
+
+
+def c17e(db, res):
+    """NUL-insensitive search (used for "chunked" in Transfer-Encoding): a NUL byte of the haystack is skipped, i.e. the
+    iteration that meets it moves the haystack cursor by one and leaves the needle cursor where it is."""
+    res.rule('C17.e', 'NUL-insensitive search: in bstr_util_mem_index_of_mem_nocasenorzero every path of the inner loop from a true NUL test of the haystack byte back to the loop head has net effect +1 on the haystack cursor and 0 on the needle cursor')
+    f = db.get('bstr_util_mem_index_of_mem_nocasenorzero')
+    lps = C.loops(f)
+    n = 0
+    for b in f.blocks:
+        c = f.cond_of(b)
+        if not c:
+            continue
+        e = strip(c[0])
+        if not (e.get('k') == 'bin' and e['op'] in ('==', '!=') and is_lit(e['r'], 0) and strip(e['l']).get('k') == 'index' and strip(strip(e['l'])['idx']).get('k') == 'var'):
+            continue
+        inner = [(h, body) for h, body in lps if b in body]
+        if len(inner) < 2:
+            continue                                       # the leading-NUL skip of the outer loop (C08.d)
+        h, body = min(inner, key=lambda hb: len(hb[1]))
+        hay = strip(strip(e['l'])['idx'])['name']
+        # the needle cursor: the other variable stepped in this loop
+        stepped = {strip(u['e'])['name'] for bb in body for st in f.blocks[bb]['stmts'] for u in nodes(st, lambda y: y.get('k') == 'un' and y['op'] in ('++', '++post', '--', '--post') and strip(y['e']).get('k') == 'var')}
+        needle = sorted(stepped - {hay})
+        tsucc = f.blocks[b]['succs'][0 if e['op'] == '==' else 1]
+        for atoms, events, end, seq in P.enum_paths_seq(f, (tsucc, -1)):
+            if end[0] != 'loop' or end[1] != h:
+                continue
+            n += 1
+            delta = {}
+            for x in seq:
+                if x[0] != 'stmt':
+                    continue
+                for u in nodes(x[3], lambda y: y.get('k') == 'un' and y['op'] in ('++', '++post', '--', '--post') and strip(y['e']).get('k') == 'var'):
+                    v = strip(u['e'])['name']
+                    delta[v] = delta.get(v, 0) + (1 if '+' in u['op'] else -1)
+            ok = delta.get(hay, 0) == 1 and all(delta.get(v, 0) == 0 for v in needle)
+            res.check(ok, 'C17.e', 'index_of_nocasenorzero:nul-skip:net-effect', 'haystack cursor +1, needle cursor 0',
+                      'the iteration that skips a NUL byte of the haystack has net effect %s: the NUL consumes a position of the needle (it acts as a wildcard) or the haystack cursor does not move - "ch\\0unked" is no longer found' % (delta,), c[0]['loc'])
+    res.floor('C17.e', 'NUL-skip paths of the inner search loop', n, 1)
